@@ -32,7 +32,7 @@ ANNOUNCE = 225.0
 
 def floors(tier):
     q = tier == "quick"
-    return {"c09.probe_format": 8000 if q else 900000, "c09.announce": 3000 if q else 300000, "c09.conflict": 4000 if q else 500000, "c09.registry": 4000 if q else 500000, "c09.blocking": 6 if q else 40}
+    return {"c09.probe_format": 8000 if q else 900000, "c09.announce": 3000 if q else 300000, "c09.conflict": 4000 if q else 500000, "c09.registry": 4000 if q else 500000, "c09.blocking": 10 if q else 60}
 
 
 def plan(tier, seed):
@@ -345,7 +345,7 @@ def window_of(d: float) -> str:
     return "after-P3"
 
 
-def run_blocking(res: Result, seed: int) -> None:
+def run_blocking(res: Result, seed: int, variant: int = 0) -> None:
     """register_service() of the blocking API, called from a non-loop thread of a Zeroconf() with its own loop thread (real
     time, fake sockets): with a conflicting pointer cached beforehand, heard ~100 ms into probing, or not at all.  Judged on
     counts, order and content (real-time spacing is only required to lie within 100 ms of 175 / 225 ms): three probes, then
@@ -360,12 +360,15 @@ def run_blocking(res: Result, seed: int) -> None:
     inst = rng.choice(["blk node", "Blk.Dotted", "blké"])
     s.name = inst + "." + s.type
     s.server = "blk-host.local."
-    conflict = rng.choice(["none", "cached", "during"])
-    allow = rng.random() < 0.5
-    desc = {"blocking": True, "svc": s.brief(), "conflict": conflict, "allow": allow}
+    # the variants are dealt out, not drawn: (conflict, seconds into the call at which it is heard, renaming allowed); a
+    # conflict heard after the second probe with renaming allowed makes the whole call last more than a second
+    VARIANTS = [("during", 0.26, True), ("none", 0.0, True), ("cached", 0.0, False), ("during", 0.1, False), ("during", 0.3, True), ("cached", 0.0, True),
+                ("during", 0.2, True), ("during", 0.05, True), ("none", 0.0, False), ("during", 0.33, True)]
+    conflict, during_at, allow = VARIANTS[variant % len(VARIANTS)]
+    desc = {"blocking": True, "svc": s.brief(), "conflict": conflict, "allow": allow, "during_at": during_at, "variant": variant}
 
     def viol(monitor: str, kind: str, detail: str, **sig: Any) -> None:
-        res.violation(monitor, kind, detail, dict(sig, family="blocking"), {"seed": seed, "blocking": True, "scenario": desc})
+        res.violation(monitor, kind, detail, dict(sig, family="blocking"), {"seed": seed, "blocking": True, "variant": variant, "scenario": desc})
 
     try:
         with BlockingInstance() as bi:
@@ -376,7 +379,7 @@ def run_blocking(res: Result, seed: int) -> None:
                 bi.settle(5)
             elif conflict == "during":
                 import threading
-                threading.Timer(rng.choice([0.05, 0.1, 0.2]), bi.inject, args=(cdata,)).start()
+                threading.Timer(during_at, bi.inject, args=(cdata,)).start()
             info = R.make_info(s)
             result = "registered"
             t0 = bi.now_ms()
@@ -446,15 +449,15 @@ def run_shard(spec):
     for _ in range(spec["per"]):
         run_scenario(res, rng.randrange(1 << 30))
     if spec["shard"] in ((2, 3, 4, 5) if spec["tier"] == "quick" else range(2, 26)):
-        for _ in range(2):
-            run_blocking(res, rng.randrange(1 << 30))
+        for j in range(3):
+            run_blocking(res, rng.randrange(1 << 30), variant=(spec["shard"] - 2) * 3 + j)
     return res
 
 
 def replay(blob):
     res = Result()
     if blob.get("blocking"):
-        run_blocking(res, blob["seed"])
+        run_blocking(res, blob["seed"], blob.get("variant", 0))
         return res
     run_scenario(res, blob["seed"])
     return res
